@@ -149,7 +149,7 @@ package openflow13
 //@ decoder (*MultipartReply).UnmarshalBinary(s, data) (err) [C07 C12]
 //@   ensures err == nil ==> wfl(s)
 //@   loop 1:
-//@     invariant 16 <= n && int(s.Header.Length) <= len(data) && allwfl(req)
+//@     invariant 16 <= n && int(s.Header.Length) <= len(data) && allwfl(req) && n == 16 + sum(req) && (n <= int(s.Header.Length) || len(req) == 0)
 //@     decreases int(s.Header.Length) - n
 
 //@ elemdecoder (*DescStats).UnmarshalBinary(s, data) (err) [C07 C12]
@@ -280,7 +280,7 @@ package openflow13
 //@   requires len(s.Ports) == 0
 //@   ensures err == nil ==> wfl(s)
 //@   loop 1:
-//@     invariant 32 <= next && allwfl(s.Ports)
+//@     invariant 32 <= next && allwfl(s.Ports) && next == 24 + len(s.DPID) + sum(s.Ports) && (next <= len(data) || len(s.Ports) == 0)
 //@     decreases len(data) - next
 
 //@ decoder (*VendorHeader).UnmarshalBinary(v, data) (err) [C07 C12]
